@@ -39,7 +39,7 @@ def seg_case(draw, tier="quick"):
     b = [draw(C.ints(5)) for _ in range(d)]
     return {"d": d, "a": a, "b": b, "inf": draw(st.sampled_from([None, None, None, "b", "a"])), "sa": draw(C.scale()), "sb": draw(C.scale()),
             "off": [draw(C.ints(3)) for _ in range(d)], "coll": draw(st.booleans()),
-            "derive": draw(st.sampled_from(Z.DERIVATIONS)), "move": [draw(st.integers(-4, 4)) for _ in range(3)]}
+            "derive": draw(st.sampled_from(Z.DERIVATIONS)), "move": [draw(st.integers(-4, 4)) for _ in range(3)], "facet": draw(st.sampled_from([None, None, "facets", "edges"]))}
 
 
 def run_seg(c):
@@ -60,6 +60,22 @@ def run_seg(c):
                 np.array([ha * sa, hb * sb]), how, c.get("move", [1, 2, 3]), lambda rows0: Point(rows0[0]), None, bool(c["inf"]))
     if f:
         return Batch(1, 0, [(f, c)], [])
+    facet = c.get("facet") if (c["inf"] is None and not how) else None
+    if facet:
+        # the segment is taken from a polygon (its first edge); before it is used, another polygon with the same number of
+        # vertices is built and queried - the edge of the first polygon is still the segment from a to b
+        off = np.array(c["off"], float)
+        if np.linalg.matrix_rank(np.stack([b - a, off])) < 2 or facet not in ("facets", "edges"):
+            raise Skip("no triangle on this segment")
+        tri = Polygon(Point(ha * sa), Point(hb * sb), Point(np.append(a + off, 1.0)))
+        S, f = call(f"segment{d}:polygon.{facet}[0]", (lambda: tri.facets[0]) if facet == "facets" else (lambda: tri.edges[0]))
+        if f:
+            return Batch(1, 0, [(f, c)], [])
+        shift = np.array([7.0, -5.0, 3.0][:d])
+        other = Polygon(Point(np.append(b + shift, 1.0)), Point(np.append(a + off + shift, 1.0)), Point(np.append(a + 2 * shift, 1.0)))
+        for q in (call(f"segment{d}:other-polygon.contains", other.contains, Point(np.append(a + shift, 1.0))), call(f"segment{d}:other-polygon.edges", lambda: other.edges)):
+            if q[1]:
+                return Batch(1, 0, [(q[1], c)], [])
     # query points
     qs, truth, cls = [], [], []
     if c["inf"] is None:
@@ -89,7 +105,7 @@ def run_seg(c):
     qs = np.array(qs)
     truth = np.array(truth)
     fails = []
-    site0 = f"segment{d}:{'ray' if c['inf'] else 'finite'}" + (f":derived({how})" if how else "")
+    site0 = f"segment{d}:{'ray' if c['inf'] else 'finite'}" + (f":derived({how})" if how else "") + (f":polygon.{facet}[0]-after-another-polygon" if facet else "")
     if c["coll"]:
         r, f = call(site0 + ":collection", S.contains, PointCollection(qs))
         if f:
@@ -113,6 +129,8 @@ def run_seg(c):
         labels[x] = cls.count(x)
     if how:
         labels["derived-from-a-queried-object"] = 1
+    if facet:
+        labels["edge-of-a-polygon"] = 1
     return Batch(len(qs), nt, fails, [], labels)
 
 
